@@ -214,7 +214,10 @@ def generate(rng, config):
                 "bipartite": ["kthlist", "matrix", "gml", "dot"],
                 "dag": ["kthlist", "dimacs", "gml", "dot"]}[gtype]
         f = rng.choice(fmts[:2] * 3 + fmts[2:])
-        save = ["g." + f] if rng.random() < 0.5 else [f, "g.out"]
+        # file names are the user's: braces, blanks, percent signs
+        base = rng.choice(["g", "g", "g", "g{}", "set{a,b}", "half{open",
+                           "with blank", "100%s", "g{0}", "}{"])
+        save = [base + "." + f] if rng.random() < 0.5 else [f, base + ".out"]
     strategy, budget = adversary_from(rng, p_none=0.45)
     resave = None
     if save and config != "cli" and rng.random() < 0.5:
